@@ -252,13 +252,17 @@ PLAN = {
               "with MALLOC_PERTURB_=0x5a, optimised build with MALLOC_PERTURB_=0xff under setarch -R (no ASLR) - and the transcripts "
               "(return codes, statuses, exact x/pi/rc/slack, Farkas vectors, returned bases, the final problem through the query API, "
               "hashes of the written LP/MPS/basis files) must be byte-identical; a share of the histories is also run under valgrind "
-              "memcheck (--error-exitcode, undefined-value errors on) on an uninstrumented build. Non-trivial = history with a solve "
-              "and a structural edit; distinct by transcript."),
+              "memcheck (--error-exitcode, undefined-value errors on) on an uninstrumented build. Variants mem / mem6: the histories "
+              "of C05 (adaptive tails, start objects from the file readers) and the bulk edit sequences of C06 executed on the "
+              "ASan+UBSan build for their memory behaviour alone (functional verdicts only labelled). Non-trivial = history with a "
+              "solve and a structural edit; distinct by transcript."),
         technique="PBT with cross-environment differential (determinism) oracle + sanitizers + valgrind sample",
         needs_all_flavours=True,
         valgrind_share=dict(quick=1, thorough=4),
         min_nontrivial=dict(quick=200, thorough=3000),
-        runs=both("", dict(cases=2400, size=100, budget=40), dict(cases=60000, size=150, budget=900), 6, 10),
+        runs=both("", dict(cases=2400, size=100, budget=40), dict(cases=60000, size=150, budget=900), 6, 10) +
+             [dict(variant="mem", flavour="asan", quick=dict(cases=3000, size=100, shards=8, budget=35), thorough=dict(cases=150000, size=150, shards=16, budget=600)),
+              dict(variant="mem6", flavour="asan", quick=dict(cases=600, size=100, shards=4, budget=35), thorough=dict(cases=20000, size=150, shards=8, budget=600))],
     ),
     "C13": dict(
         rule=("(api) LP solved to optimality by the direct rational simplex (random pricing), then a random sequence of "
